@@ -153,6 +153,40 @@ CHECKS = {
              "cannot exhibit; the embedding comparison observes it.",
         technique="Coq proof (erasure commutes with each visitor, nested induction) + vm_compute correspondence + wrapped-vs-unwrapped differential oracle",
         design="6 C16"),
+    "C10": dict(
+        text="Theorems (Coq, every refinement method of every type, ARBITRARY arguments incl. wrongly typed ones, chains "
+             "of any length): decl_only_declerr / run_only_declerr (an arity-correct call never raises anything but "
+             "DeclarationError), redeclare_rejected, decl_fixed_conforms + run_dsl_inv (a decidable invariant dsl_inv "
+             "holds of every bare type and is preserved by every successful call; it implies that a fixed value - or "
+             "a fully fixed element list - conforms to its own schema), with the NaN exclusion made explicit and "
+             "refuted without it (F10). Tie: exhaustive call chains (length <= 2, sampled 3-4; thorough: <= 3) over a "
+             "boundary universe run on /repo and compared with the model; oracle: exception class, receiver unchanged, "
+             "validate(result, value), re-declaration rejected.",
+        note=COMMON_NOTE + "Python arity errors (TypeError) are outside the property (arity_ok). F10 (NaN) open known "
+             "finding; F12, F13 repaired by fix: commits.",
+        technique="Coq proof (guard-ladder case analysis + invariant preservation) + vm_compute correspondence over enumerated chains + direct oracle",
+        design="6 C10"),
+    "C11": dict(
+        text="Theorems (Coq): commute (any two non-value refinements of one type, ANY state, ANY arguments give the same "
+             "outcome in either order: both rejected or Leibniz-equal schemas) and perm_same_outcome / "
+             "perm_same_outcome_after_value (by induction on Permutation: op lists of ANY length, not only the 3 of "
+             "the property's enumeration); value_does_not_commute shows why the value must come first. Tie: all "
+             "permutations of enumerated refinement sets on /repo, all must agree with each other and with the model.",
+        note=COMMON_NOTE + "F01 (regex/len guard) repaired by a fix: commit.",
+        technique="Coq proof (pairwise commutation by case analysis, lifted over Permutation) + vm_compute correspondence + exhaustive permutation oracle",
+        design="6 C11"),
+    "C06": dict(
+        text="Theorem repr_roundtrip_eq (Coq, all schemas satisfying the DSL invariant, alias/custom-free, any nesting): "
+             "eval (represent s) = Ok s - the call-chain tree printed by the representor evaluates, through the "
+             "declaration model, to the identical schema (so equal, and with the same repr); reachability lemmas show "
+             "the invariant holds for everything declaration, + and make_required build. The literal/text layer "
+             "(repr of ints, floats, str, bytes, UUID, datetime; indentation, commas) is NOT modelled: it is tied per "
+             "run by parsing repr(S) with ast into the model's expr and by the oracle eval(repr(S)) == S, "
+             "repr(eval(repr(S))) == repr(S) on /repo. Partial in that sense.",
+        note=COMMON_NOTE + "F15 (non-finite float printed as inf/nan) is an open known finding of the text layer; F14 "
+             "repaired by a fix: commit.",
+        technique="Coq proof (round trip through the declaration model, nested induction) + ast-level correspondence + direct oracle",
+        design="6 C06"),
 }
 
 
